@@ -63,6 +63,9 @@ def cases(tier, seed):
         for k, f in itertools.product(range(N), (0.0, 0.4, 1.1, 3.0)):
             for which, bigger in itertools.product(("unknown", "reference"), ("reference", "unknown")):
                 out.append(dict(part="refuse-shift", N=N, k=k, factor=f, which=which, bigger=bigger, seed=seed))
+        # single-object patches: the stored radius is exactly 0, any displacement exceeds it
+        for k, deg in itertools.product(range(N), (0.0, 0.5, 20.0)):
+            out.append(dict(part="refuse-single", N=N, k=k, shift=deg, seed=seed))
     return out
 
 
@@ -287,8 +290,38 @@ def run_refuse_shift(case):
     return v, bool(must_raise or must_pass)
 
 
+def run_refuse_single(case):
+    """Both catalogs have exactly one object per patch at coordinates whose mean round-trips exactly (radius 0.0)."""
+    import yaw
+
+    N, k, shift = case["N"], case["k"], case["shift"]
+    ras = [0.0, 90.0, 180.0][:N]
+    d = runner.fresh_dir("c12")
+    ca = yawx.make_catalog(d + "/A", ras, [0.0] * N, z=[0.15, 0.25, 0.15][:N], pid=list(range(N)))
+    rb = [r + (shift if i == k else 0.0) for i, r in enumerate(ras)]
+    cb = yawx.make_catalog(d + "/B", rb, [0.0] * N, pid=list(range(N)))
+    config = yaw.Configuration.create(rmin=0.1, rmax=1.0, unit="deg", edges=[0.1, 0.2, 0.3])
+    radii = (ca.get_radii().data[k], cb.get_radii().data[k])
+    ca_c, cb_c = ca.get_centers().data[k], cb.get_centers().data[k]
+    dist = float(ref.sep(ca_c[0], ca_c[1], cb_c[0], cb_c[1]))
+    must_raise = dist > max(radii) * (1 + 1e-9) and dist > 1e-12
+    try:
+        yaw.crosscorrelate(config, ca, cb, unk_rand=cb)
+        raised = None
+    except Exception as e:
+        raised = e
+    v = []
+    if must_raise and raised is None:
+        v.append(viol("C12/refuse/displaced-centre-accepted/single-object-patches",
+                      f"centres of patch {k} are {dist:.4f} rad apart, stored radii {radii}: measurement did not refuse", case))
+    if shift == 0.0 and raised is not None:
+        v.append(viol(f"C12/refuse/aligned-refused/{type(raised).__name__}/single-object-patches",
+                      f"aligned single-object catalogs refused: {yawx.exc_name(raised)}", case))
+    return v, True
+
+
 def run_case(case):
-    fn = {"centres": run_centres, "ids": run_ids, "create": run_create, "refuse-ids": run_refuse_ids,
+    fn = {"centres": run_centres, "refuse-single": run_refuse_single, "ids": run_ids, "create": run_create, "refuse-ids": run_refuse_ids,
           "refuse-shift": run_refuse_shift}[case["part"]]
     viols, nontrivial = fn(case)
     res = dict(nontrivial=bool(nontrivial), key=case)
